@@ -77,6 +77,30 @@ pub const SEMANTICS_DOC: &str = r#"Semantics of the translation (rs2lean)
 * `match` on an integer with constant patterns (`C1 => ..`) is a chain of equality tests; `panic!()` as the value of an
   arm is `none`.  `unsafe { e }` is `e` (every operation inside must still be in the mapping table).
 * Enums used by the functions are regenerated from the Rust `enum` definition as Lean inductives.
+* MOVE GENERATION (round 3).  In a bit-manipulating function a value of a struct that is regenerated with `Int` fields (`Move`)
+  is FLATTENED: a parameter `mv: Move` is one parameter per field read (`mv_bits`), a local `let mut mv = Move { bits: 0, mvvlva: 0 }`
+  is one mutable variable per field (`mv_bits`, `mv_mvvlva`; `mv.f = e` rebinds `mv_f`, `mv.set_x(a);` rebinds the fields the
+  translated `&mut self` method `set_x` modifies), and a `Vec<Move>` / `&[Move]` is a `List` of PACKED values = tuples of the fields in
+  declaration order (`(bits, mvvlva) : UInt64 × Int`).  A parameter `result: &mut Vec<Move>` is an in/out list (its final value is
+  (part of) the result; `f(result, ..);` / `self.m(result, ..);` as a statement of its own rebinds it), `result.push(mv)` is
+  `result ++ [(mv_bits, mv_mvvlva)]`, `Vec::new()` is `[]`.
+  - `let x;` (deferred initialisation) binds `x` at its first assignment (an `if` whose branches assign it yields it).  The type of an
+    UNTYPED integer literal bound by `let` (`let off = if c { 0 } else { 8 };`, `d = 56;`) is taken from the first typed operand the
+    variable is later combined with (`target + off`, `A8 + d`); this is only a hint for the literal: every use is type-checked.
+  - OPAQUE TABLE TYPES (`Magics`, `Nonmagics`): a value of such a type — a parameter `magics: &Magics`, a local chosen between two
+    global tables, a global passed as an argument (`&ROOK_MAGICS`) — is represented by its lookup FUNCTION (`Int → UInt64 → UInt64`,
+    `Int → UInt64`); `t.get_attacks(..)` applies it; a global table is the OPAQUE function parameter `ROOK_MAGICS_get_attacks` the
+    check-detection functions already take.  An array constant (`const PIECE_VALUES: [i32; 7] = [..]`) is a list, indexing is checked.
+  - `for &x in list { body }` over a list parameter is a definition `f.for_n` by STRUCTURAL recursion on the list (no fuel); a packed
+    element is destructured into a flattened struct local.  `list.into_iter().filter(|&x| self.m(x)).collect()` where `m` is a translated
+    `&mut self` method returning `bool` is a definition `f.filter_n` by structural recursion that threads the fields `m` modifies
+    through the calls in list order (the iterator is lazy: the predicate runs once per element, in order).
+  - `self.m(args)` for a translated `&mut self` method that RETURNS A VALUE may be the head of a `let` initialiser / of the first `if`
+    condition of a statement: `let (r, fields..) ← m ..` runs before the statement, the value is `r`.  Fields of `&mut self` modified
+    inside a loop are part of the loop state; a `return` inside such a loop yields `Ctl.ret` of the COMPLETE result of the function
+    (returned value and final fields).
+  - `a && b` / `a || b` with a right operand that can panic is `(← (if a then (do b) else pure false))`: a parenthesised TERM-level
+    `if` (so that Lean does not duplicate the rest of the `do` block into both branches).
 * Anything else makes rs2lean stop with an error naming file, line, function and construct.  It never guesses."#;
 
 pub const PRELUDE: &str = r#"namespace Inkayaku.Rs
